@@ -915,7 +915,7 @@ func c02WholeLinesR(c *Ctx, R string) {
 		if !ok || len(as.Rhs) != 1 || len(as.Lhs) < 1 || !fieldSel(info, as.Lhs[0], "internal/parser.ContentReader", "buf") {
 			return true
 		}
-		call, ok := ast.Unparen(as.Rhs[0]).(*ast.CallExpr)
+		call, ok := ast.Unparen(singleDef(info, fi.Decl.Body, as.Rhs[0])).(*ast.CallExpr)
 		if !ok {
 			return true
 		}
